@@ -482,12 +482,15 @@ type recCase struct {
 
 const recCPU, recMem = 10000000, 100000000
 
-func recCases() []recCase {
+func recCases(tier string) []recCase {
 	var out []recCase
 	for i := range recTemplates {
 		t := &recTemplates[i]
 		for _, n := range recNs {
 			if t.maxN != 0 && n > t.maxN {
+				continue
+			}
+			if n > 100000 && tier != "thorough" {
 				continue
 			}
 			for _, lim := range []bool{true, false} {
@@ -507,9 +510,9 @@ func (c recCase) label() string {
 }
 
 func recFamilies(tier string) []*core.Family {
-	cases := recCases()
+	cases := recCases(tier)
 	const name = "d-rec"
-	timeout := 90 * time.Second
+	timeout := 60 * time.Second
 	execFuncs[name] = func(i uint64) runRes {
 		c := cases[i]
 		o := host.Opts{Args: []rt.Value{rt.IntValue(c.n)}}
